@@ -32,12 +32,16 @@ NewSess == [ech |-> -1, pch |-> -1,
             winBlocked |-> FALSE]
 NewLink == [ech |-> -1, pch |-> -1, eh |-> -1, ph |-> -1, name |-> "", eutSender |-> TRUE,
             eAtt |-> FALSE, pAtt |-> FALSE, eDet |-> FALSE, pDet |-> FALSE, pClosed |-> FALSE, pDetErr |-> "", touched |-> FALSE, pDetFirst |-> FALSE,
-            snd |-> 2, rcv |-> 0,
+            snd |-> 2, rcv |-> 0, mmsP |-> -1,
             \* sender role (EUT sends)
             idc |-> 0, dcS |-> 0, limit |-> -1, drainOwed |-> FALSE, echoOwed |-> FALSE, inDel |-> FALSE, curDid |-> -1,
             sendsIssued |-> 0, delsDone |-> 0, blockedBy |-> "none",
             \* receiver role (EUT receives)
-            dcR |-> 0, lcR |-> 0, creditMode |-> -1]
+            dcR |-> 0, dcGot |-> 0, lcR |-> 0, limitR |-> 0, limitMax |-> 0, idcP |-> 0, accepted |-> 0, broken |-> FALSE, aborts |-> 0, cfgActive |-> FALSE, creditMode |-> -2, autoAcc |-> FALSE, expectLc |-> -1, held |-> 0, pInDel |-> FALSE,
+            inq |-> <<>>,          \* incoming deliveries not yet handed to the application
+            \* settlement
+            sendq |-> <<>>,        \* sends of the application on this link: [call, m, did, presettled, outcome, settledByPeer]
+            oblEcho |-> {}]        \* deliveries for which the EUT (sender, rcv-settle-mode second) owes a settling disposition
 
 InitState == [side |-> "client", sc |-> 0, last |-> "Init", now |-> 0,
   \* connection
@@ -45,7 +49,7 @@ InitState == [side |-> "client", sc |-> 0, last |-> "Init", now |-> 0,
   phdr |-> "none", popen |-> FALSE, pclose |-> FALSE, pcloseErr |-> "", pcloseHeard |-> FALSE, peof |-> FALSE, illegal |-> FALSE, garbage |-> FALSE,
   oblClose |-> FALSE, openRet |-> "none", closeRet |-> "none", hook |-> FALSE,
   emfs |-> 512, pmfs |-> 512, echmax |-> 65535, pchmax |-> 65535, eidle |-> -1, pidle |-> -1, lastE |-> 0, lastP |-> 0, openAt |-> -1,
-  ss |-> <<>>, ls |-> <<>>]
+  ss |-> <<>>, ls |-> <<>>, pendCfg |-> <<>>]
 
 \* index of the first element of seq satisfying P, 0 if none
 FirstIdx(seq, P(_)) == IF \E i \in DOMAIN seq : P(seq[i]) THEN CHOOSE i \in DOMAIN seq : P(seq[i]) /\ \A j \in 1..(i - 1) : ~P(seq[j]) ELSE 0
@@ -110,7 +114,10 @@ H_EAttach(s, r, l) ==
            \* answers an attach the peer sent first?
            ans == LastIdx(s.ls, LAMBDA y : y.pch = s.ss[i].pch /\ y.name = f.name /\ y.eutSender = eutSender /\ y.pAtt /\ ~y.eAtt /\ ~y.pDet)
            base == IF ans > 0 THEN s.ls[ans] ELSE NewLink
+           ci == LastIdx(s.pendCfg, LAMBDA c : c.name = f.name)
            y == [base EXCEPT !.ech = r.ch, !.eh = f.h, !.name = f.name, !.eutSender = eutSender, !.eAtt = TRUE,
+                             !.creditMode = IF ~eutSender /\ ci > 0 THEN s.pendCfg[ci].credit ELSE @,
+                             !.autoAcc = IF ~eutSender /\ ci > 0 THEN s.pendCfg[ci].autoAcc ELSE @,
                              !.idc = IF eutSender /\ f.idc >= 0 THEN f.idc ELSE @, !.dcS = IF eutSender /\ f.idc >= 0 THEN f.idc ELSE @,
                              !.snd = IF ans > 0 THEN @ ELSE f.snd, !.rcv = IF ans > 0 THEN @ ELSE f.rcv]
        IN R([s EXCEPT !.ls = IF ans > 0 THEN [s.ls EXCEPT ![ans] = y] ELSE Append(s.ls, y)],
@@ -135,9 +142,12 @@ H_ETransfer(s, r, l) ==
       id == x.initOut + x.framesOut
       first == ~y.inDel
       strictOK == x.pBegun /\ id >= x.peerNII /\ id - x.peerNII < x.peerWin
-      devOK == x.pBegun /\ (first => x.devWin > 0)
-      x2 == [x EXCEPT !.framesOut = @ + 1, !.delsOut = IF first THEN @ + 1 ELSE @, !.lastDid = IF first /\ f.did >= 0 THEN f.did ELSE @,
-                      !.devWin = IF first THEN Max(0, @ - 1) ELSE @]
+      \* deviation model (known finding): the session counts one transfer per link-level transfer; the link splits a
+      \* delivery only at multiples of the peer's max-message-size, every other frame boundary is made below the session
+      unit == first \/ (y.mmsP > 0 /\ r.pl.off % y.mmsP = 0)
+      devOK == x.pBegun /\ (unit => x.devWin > 0)
+      x2 == [x EXCEPT !.framesOut = @ + 1, !.delsOut = IF unit THEN @ + 1 ELSE @, !.lastDid = IF first /\ f.did >= 0 THEN f.did ELSE @,
+                      !.devWin = IF unit THEN Max(0, @ - 1) ELSE @]
       y2 == [y EXCEPT !.inDel = f.more, !.curDid = IF first THEN f.did ELSE @, !.dcS = IF first THEN @ + 1 ELSE @,
                       !.delsDone = IF f.more THEN @ ELSE @ + 1]
   IN R(SetL(SetS(s, i, x2), k, y2),
@@ -164,7 +174,13 @@ H_EFlow(s, r, l) ==
            drained == y.drainOwed /\ f.lc = 0 /\ f.dc = Max(y.dcS, y.limit)
            y2 == [y EXCEPT !.drainOwed = IF drained THEN FALSE ELSE @, !.dcS = IF drained THEN Max(y.dcS, y.limit) ELSE @, !.echoOwed = FALSE]
        IN R(SetL(s, k, y2), fs + Chk("C08_OnePerDelivery", f.dc = y.dcS \/ drained, l, ""))
-  ELSE R(SetL(s, k, [y EXCEPT !.lcR = f.lc]), fs + Chk("C09_FlowCount", f.dc = y.dcR, l, ""))
+  ELSE \* the delivery-count a receiver reports is the sender's count as learnt, advanced by the deliveries it has taken in:
+       \* at least those already handed to the application, at most those that have arrived (a link endpoint
+       \* processes arrivals when the application drives it)
+       R(SetL(s, k, [y EXCEPT !.lcR = f.lc, !.limitR = f.dc + Max(f.lc, 0), !.limitMax = Max(@, f.dc + Max(f.lc, 0)), !.expectLc = -1]),
+         fs + Chk("C09_FlowCount", f.dc >= y.dcGot /\ f.dc <= y.dcR, l, "")
+            + Chk("C09_FlowCredit", y.expectLc < 0 \/ f.lc = y.expectLc, l, "")
+            + Chk("C09_FlowCreditAuto", ~y.cfgActive \/ y.creditMode < 0 \/ y.expectLc >= 0 \/ f.drain \/ f.lc <= y.creditMode, l, ""))
 
 H_EFrame(s, r, l) ==
   LET pre == EPre(s, r, l)
@@ -207,8 +223,8 @@ H_PAttach(s, r, l) ==
   LET eutSender == f.role = "r"
       ans == LastIdx(s.ls, LAMBDA y : y.ech = s.ss[i].ech /\ y.name = f.name /\ y.eutSender = eutSender /\ y.eAtt /\ ~y.pAtt /\ ~y.eDet)
       base == IF ans > 0 THEN s.ls[ans] ELSE NewLink
-      y == [base EXCEPT !.pch = r.ch, !.ph = f.h, !.name = f.name, !.eutSender = eutSender, !.pAtt = TRUE,
-                        !.dcR = IF ~eutSender /\ f.idc >= 0 THEN f.idc ELSE @,
+      y == [base EXCEPT !.pch = r.ch, !.ph = f.h, !.name = f.name, !.eutSender = eutSender, !.pAtt = TRUE, !.mmsP = f.mms,
+                        !.dcR = IF ~eutSender /\ f.idc >= 0 THEN f.idc ELSE @, !.dcGot = IF ~eutSender /\ f.idc >= 0 THEN f.idc ELSE @, !.idcP = IF ~eutSender /\ f.idc >= 0 THEN f.idc ELSE @,
                         !.snd = IF ans > 0 THEN @ ELSE f.snd, !.rcv = IF ans > 0 THEN @ ELSE f.rcv]
   IN R([s EXCEPT !.ls = IF ans > 0 THEN [s.ls EXCEPT ![ans] = y] ELSE Append(s.ls, y)], 0)
 
@@ -230,12 +246,25 @@ H_PFlow(s, r, l) ==
   LET y == s.ls[k] IN
   IF y.eutSender
   THEN R(SetL(s2, k, [y EXCEPT !.limit = (IF f.dc >= 0 THEN f.dc ELSE y.idc) + Max(f.lc, 0), !.drainOwed = f.drain, !.echoOwed = (@ \/ f.echo)]), 0)
-  ELSE R(SetL(s2, k, [y EXCEPT !.dcR = IF f.dc >= 0 THEN f.dc ELSE @]), 0)
+  ELSE R(SetL(s2, k, [y EXCEPT !.dcR = IF f.dc >= 0 THEN f.dc ELSE @, !.dcGot = IF f.dc >= 0 THEN f.dc ELSE @]), 0)
 
+\* one incoming delivery as the observer sees it
+NewIn(f, pl, within) == [m |-> pl.m, total |-> pl.total, next |-> IF pl.off = 0 THEN pl.len ELSE -1, did |-> f.did, tag |-> f.tag, tagn |-> f.tagn, fmt |-> f.fmt,
+                         within |-> within, aborted |-> f.aborted, contra |-> FALSE, complete |-> (~f.more \/ f.aborted), presettled |-> (f.settled = "t")]
 H_PTransfer(s, r, l) ==
-  LET i == SessByP(s, r.ch) IN
-  IF i = 0 \/ s.ss[i].pEnded THEN R(Illegal(s), 0)
-  ELSE R(SetS(s, i, [s.ss[i] EXCEPT !.framesInSince = @ + 1]), 0)
+  LET i == SessByP(s, r.ch) f == r.f IN
+  IF i = 0 \/ s.ss[i].pEnded THEN R(Illegal(s), 0) ELSE
+  LET s2 == SetS(s, i, [s.ss[i] EXCEPT !.framesInSince = @ + 1])
+      k == LinkByP(s, r.ch, f.h) IN
+  IF k = 0 \/ s.ls[k].pDet \/ s.ls[k].eutSender THEN R(Illegal(s2), 0) ELSE
+  LET y == s.ls[k] IN
+  IF ~y.pInDel
+  THEN R(SetL(s2, k, [y EXCEPT !.inq = Append(@, NewIn(f, r.pl, y.dcR < y.limitR)), !.dcR = @ + 1, !.pInDel = (f.more /\ ~f.aborted), !.aborts = IF f.aborted THEN @ + 1 ELSE @]), 0)
+  ELSE LET n == Len(y.inq) e == y.inq[n]
+           e2 == [e EXCEPT !.contra = (@ \/ (f.did >= 0 /\ f.did # e.did) \/ (f.tagn >= 0 /\ f.tag # e.tag) \/ (f.fmt >= 0 /\ f.fmt # e.fmt)),
+                           !.next = IF r.pl.m = e.m /\ r.pl.off = e.next THEN e.next + r.pl.len ELSE -1,
+                           !.aborted = (@ \/ f.aborted), !.complete = (~f.more \/ f.aborted)]
+       IN R(SetL(s2, k, [y EXCEPT !.inq[n] = e2, !.pInDel = (f.more /\ ~f.aborted), !.aborts = IF f.aborted THEN @ + 1 ELSE @]), 0)
 
 H_PFrame(s, r, l) ==
   \* the peer's close is heard even after the EUT has sent its own
@@ -265,10 +294,39 @@ LinkByName(s, name, wantSender) == LastIdx(s.ls, LAMBDA y : y.name = name /\ y.e
 
 H_ApiCall(s, r, l) ==
   IF r.op \in {"open", "accept"} THEN R([s EXCEPT !.openRet = "pending"], 0)
+  ELSE IF r.op \in {"attach_receiver", "accept_link"} THEN R([s EXCEPT !.pendCfg = Append(@, [name |-> r.lname, credit |-> IF "credit" \in DOMAIN r.args THEN r.args.credit ELSE -1,
+                                                                                                 autoAcc |-> IF "auto_accept" \in DOMAIN r.args THEN r.args.auto_accept ELSE FALSE])], 0)
   ELSE IF r.op \in {"send", "send_batchable"} THEN
        LET k == LinkByName(s, r.lname, TRUE) IN
-       IF k = 0 THEN R(s, 0) ELSE R(SetL(s, k, [s.ls[k] EXCEPT !.sendsIssued = @ + 1, !.touched = TRUE]), 0)
+       IF k = 0 THEN R(s, 0) ELSE R(SetL(s, k, [s.ls[k] EXCEPT !.sendsIssued = @ + 1, !.touched = TRUE,
+                                                !.sendq = Append(@, [call |-> r.call, m |-> r.args.m, did |-> -1, presettled |-> FALSE, outcome |-> "none"])]), 0)
+  ELSE IF r.op = "set_credit" THEN
+       LET k == LinkByName(s, r.lname, FALSE) IN
+       IF k = 0 THEN R(s, 0) ELSE R(SetL(s, k, [s.ls[k] EXCEPT !.expectLc = r.args.n, !.touched = TRUE]), 0)
+  ELSE IF r.scope # "" /\ r.lname # "" THEN
+       \* any operation on a link counts as the application touching it
+       LET k == LastIdx(s.ls, LAMBDA y : y.name = r.lname /\ y.eAtt) IN
+       IF k = 0 THEN R(s, 0) ELSE R(SetL(s, k, [s.ls[k] EXCEPT !.touched = TRUE]), 0)
   ELSE R(s, 0)
+
+\* the first delivery of the queue that may be handed to the application: complete, not aborted, not contradictory
+Eligible(e) == e.complete /\ ~e.aborted /\ ~e.contra
+H_RecvRet(s, r, l) ==
+  LET k == LinkByName(s, r.lname, FALSE) IN
+  IF k = 0 THEN R(s, 0) ELSE
+  LET y == s.ls[k] j == FirstIdx(y.inq, Eligible) IN
+  IF ~r.res.ok
+  THEN \* an error result consumes nothing the observer can name; a contradictory or over-limit delivery is dropped with it
+       R(SetL(s, k, [y EXCEPT !.inq = SelectSeq(@, LAMBDA e : ~e.contra /\ ~(e.complete /\ e.aborted)), !.broken = TRUE]), 0)
+  ELSE IF j = 0 THEN R(s, Fail("C10_NotBefore", l, "") + (IF \E n \in DOMAIN y.inq : y.inq[n].m = r.res.m /\ y.inq[n].contra THEN Fail("C10_Contradiction", l, "") ELSE 0)
+                                + (IF \E n \in DOMAIN y.inq : y.inq[n].m = r.res.m /\ y.inq[n].aborted THEN Fail("C10_Abort", l, "") ELSE 0))
+  ELSE LET e == y.inq[j] IN
+       R(SetL(s, k, [y EXCEPT !.inq = SubSeq(@, j + 1, Len(@)), !.held = IF y.autoAcc THEN @ ELSE @ + 1, !.dcGot = @ + 1, !.accepted = @ + 1]),
+           Chk("C10_Exact", r.res.m = e.m /\ r.res.intact /\ e.next = e.total, l, "")
+         + Chk("C11_Routing", r.res.m = e.m \/ ~\E k2 \in DOMAIN s.ls : k2 # k /\ \E n \in DOMAIN s.ls[k2].inq : s.ls[k2].inq[n].m = r.res.m, l, "")
+         \* deliveries handed to the application never outnumber the credit issued so far (largest limit stated in a flow)
+         + Chk("C09_Enforced", y.accepted + 1 <= y.limitMax - y.idcP, l, "")
+         + Chk("C10_Contradiction", ~\E n \in 1..(j - 1) : y.inq[n].contra /\ y.inq[n].m = r.res.m, l, ""))
 
 H_ApiRet(s, r, l) ==
   IF r.op \in {"open", "accept"}
@@ -281,6 +339,13 @@ H_ApiRet(s, r, l) ==
          + Chk("C12_CloseResult_Clean", ~(s.pcloseHeard /\ s.pcloseErr = "" /\ ~s.illegal /\ s.ecloses = 1 /\ ~s.ecloseErr /\ ~s.garbage)
                                         \/ r.res.ok \/ (r.res.class = "RemoteClosed" /\ r.res.cond = ""), l, r.res.class)
          + Chk("C13_TeardownWaits", ~(r.op = "close" /\ r.res.ok) \/ s.pcloseHeard \/ s.peof, l, "close"))
+  ELSE IF r.op \in {"attach_receiver", "accept_link"} THEN
+       LET k == LinkByName(s, r.lname, FALSE) IN
+       IF k = 0 \/ ~r.res.ok THEN R(s, 0) ELSE R(SetL(s, k, [s.ls[k] EXCEPT !.cfgActive = TRUE]), 0)
+  ELSE IF r.op = "recv" THEN H_RecvRet(s, r, l)
+  ELSE IF r.op = "dispose" /\ r.res.ok THEN
+       LET k == LinkByName(s, r.lname, FALSE) IN
+       IF k = 0 THEN R(s, 0) ELSE R(SetL(s, k, [s.ls[k] EXCEPT !.held = Max(0, @ - 1)]), 0)
   ELSE IF r.op \in {"send", "send_batchable"} /\ ~r.res.ok THEN
        LET k == LinkByName(s, r.lname, TRUE) IN
        IF k = 0 \/ s.ls[k].sendsIssued <= s.ls[k].delsDone THEN R(s, 0) ELSE R(SetL(s, k, [s.ls[k] EXCEPT !.sendsIssued = @ - 1]), 0)
@@ -321,6 +386,12 @@ H_Quiesce(s, r, l) ==
        + Chk("C08_Drain_Q", \A k \in DOMAIN s.ls : ~(up /\ s.ls[k].eutSender /\ s.ls[k].drainOwed /\ LinkLiveE(s.ls[k]) /\ ~s.ls[k].pDet), l, "")
        + Chk("C08_Echo_Q", \A k \in DOMAIN s.ls : ~(up /\ s.ls[k].eutSender /\ s.ls[k].echoOwed /\ LinkLiveE(s.ls[k]) /\ ~s.ls[k].pDet), l, "")
        + Chk("C17_Heartbeat", ~(s.pidle > 0 /\ ConnUp(s)) \/ r.t - s.lastE <= s.pidle, l, "quiesce")
+       \* automatic credit: with nothing held back by the application the sender must have credit to continue
+       + Chk("C09_Replenished_Q", \A k \in DOMAIN s.ls : ~(ConnUp(s) /\ ~s.ls[k].eutSender /\ s.ls[k].creditMode > 0 /\ LinkLiveE(s.ls[k]) /\ s.ls[k].pAtt /\ ~s.ls[k].pDet
+                                                            /\ s.ls[k].held = 0 /\ s.ls[k].inq = <<>> /\ ~s.ls[k].pInDel /\ ~s.ls[k].broken
+                                                            /\ SessByE(s, s.ls[k].ech) > 0 /\ LiveE(s.ss[SessByE(s, s.ls[k].ech)]) /\ ~s.ss[SessByE(s, s.ls[k].ech)].pEnded
+                                                            /\ s.ls[k].cfgActive /\ s.ls[k].limitR - s.ls[k].dcR <= 0), l,
+             IF \E k \in DOMAIN s.ls : s.ls[k].aborts > 0 THEN "after_abort" ELSE "")
        + fStuck)
 
 \* ---------------------------------------------------------------- one step
